@@ -20,7 +20,7 @@ import witness
 from tbf import walk, kids, strip, AnalysisBroken
 
 LEVEL = "other"
-TECHNIQUE = "index-domain analysis of rebuild's gather/scatter lambdas, constructor-vs-rebuild construction-fact comparison over argument origins, must-compile witnesses per ordering"
+TECHNIQUE = "index-domain + copy-relation engine + constructor/rebuild construction-fact comparison over argument origins + relabel-then-scatter path coverage + executor-state reset rule + must-compile witnesses"
 
 # the calls that construct something (pure queries are part of the conditions / arguments of these and are not facts of their own:
 # hoisting `x.getNbCells()` into a local or writing `!v.empty()` for `v.size()` changes no fact)
